@@ -95,6 +95,10 @@ def relevant(prop, f):
     fam, stage, orc, cfg = f.get('family'), f.get('stage'), f.get('oracle', ''), f.get('cfg', 0)
     hdr_opts = cfg & (HDR_BITS_REQ if fam == 'request' else HDR_BITS_RESP if fam == 'response' else 0)
     parts = orc.split('+')
+    if prop == 'C19':
+        return fam == 'alloc'
+    if fam == 'alloc':
+        return False
     if prop == 'C09':
         return fam == 'chunk'
     if prop == 'C06':
